@@ -34,6 +34,7 @@ const (
 	KRelay           = "relay"    // F-world relayer step
 	KConsumerTx      = "consumer_tx"
 	KRawPacket       = "raw_packet"
+	KMulti           = "multi_tx" // one tx carrying the messages of all sub-actions (same sender)
 )
 
 // Action is one element of a generated history. All fields are plain data so a trace is a JSON document.
@@ -63,6 +64,7 @@ type Action struct {
 	Fault *FaultSpec    `json:"fault,omitempty"`
 	Pkt   *PacketSpec   `json:"pkt,omitempty"`
 	Fee   string        `json:"fee,omitempty"`
+	Sub   []Action      `json:"sub,omitempty"`
 }
 
 func (a Action) String() string {
